@@ -554,6 +554,13 @@ def save_replay(pid, qname, label, entry, harness, vec, extra_defs=()):
 
 def do_replay(spec, args, work):
     r = json.load(open(args.replay))
+    if r.get('engine') == 're2smt':
+        ob = r['query'][len('regex_equiv_'):]
+        p = subprocess.run(['python3-vt', os.path.join(VERIF, 'tools', 're_equiv.py'), ob, '--replay', r['counterexample_bytes_hex']], stdout=subprocess.PIPE)
+        out = p.stdout.decode(); print(out)
+        if 'DIFFERS' in out:
+            print('VIOLATION property=%s replay=%s' % (r['property'], args.replay)); return 1
+        return 0
     hb = HarnessBuild(spec, r['harness'], r.get('defines', []), work)
     vec = [(t, int(b, 16)) for t, b in r['vector']]
     code, out = hb.replay(r['entry'], vec, os.path.join(hb.dir, 'replay.vec'))
